@@ -29,6 +29,12 @@ type protoFieldV struct {
 	holder *value // set for the member of a populated oneof: the wrapper struct cell
 }
 
+// protoListV is a protoreflect.List over a repeated message field.
+type protoListV struct {
+	items []value
+	elem  types.Type
+}
+
 // protoValueV is a protoreflect.Value holding a message member.
 type protoValueV struct {
 	v value
@@ -49,6 +55,7 @@ var (
 	pmFieldT  = &fakeType{name: "gosmt.protoFieldDescriptor", methods: map[string]bool{"Kind": true, "IsList": true, "Name": true, "JSONName": true}}
 	pmOneofT  = &fakeType{name: "gosmt.protoOneofDescriptor", methods: map[string]bool{"Name": true}}
 	pmValueT  = &fakeType{name: "gosmt.protoValue", methods: map[string]bool{"Message": true}}
+	pmListT   = &fakeType{name: "gosmt.protoList", methods: map[string]bool{"Len": true, "Get": true}}
 )
 
 // protoreflect.Value is a struct in the real library, so its methods are static calls: the model's Get returns a
@@ -69,9 +76,25 @@ func init() {
 	})
 }
 
+func init() {
+	reg("(google.golang.org/protobuf/reflect/protoreflect.Value).List", func(ex *Exec, fr *frame, pos token.Pos, args []value) value {
+		it, ok := args[0].(iface)
+		if !ok || it.t != pmValueT {
+			panic(ex.unsupported("protoreflect Value.List on a value the model did not produce"))
+		}
+		pv := it.v.(protoValueV)
+		sl, ok := pv.t.Underlying().(*types.Slice)
+		if !ok {
+			panic(ex.unsupported("protoreflect Value.List on a non-repeated member"))
+		}
+		items, _ := pv.v.([]value)
+		return iface{pmListT, protoListV{items: items, elem: sl.Elem()}}
+	})
+}
+
 // fake proto types implement every interface asked of them (the real ones are large interfaces).
 func init() {
-	for _, ft := range []*fakeType{pmMsgT, pmDescT, pmFieldsT, pmOneofsT, pmFieldT, pmOneofT, pmValueT} {
+	for _, ft := range []*fakeType{pmMsgT, pmDescT, pmFieldsT, pmOneofsT, pmFieldT, pmOneofT, pmValueT, pmListT} {
 		ft.anyIface = true
 	}
 }
@@ -229,7 +252,12 @@ func (ex *Exec) protoMethod(recv iface, name string) *modelClosure {
 				}
 				f := fd.v.(protoFieldV)
 				if f.holder == nil {
-					panic(ex.unsupported("protoreflect Get of an ordinary field (message content is not modelled)"))
+					// an ordinary field of this message: the struct cell itself (message pointer or slice of them)
+					if m.ptr == nil || f.st != m.st {
+						panic(ex.unsupported("protoreflect Get of a field of another (or a nil) message"))
+					}
+					mst := m.st.Underlying().(*types.Struct)
+					return iface{pmValueT, protoValueV{v: (*m.ptr).(structure)[f.idx], t: mst.Field(f.idx).Type()}}
 				}
 				// the member of a oneof: the single field of the wrapper struct
 				wst := f.st.Underlying().(*types.Struct)
@@ -239,6 +267,8 @@ func (ex *Exec) protoMethod(recv iface, name string) *modelClosure {
 			return mk(func(ex *Exec, fr *frame, pos token.Pos, args []value) value {
 				return iface{types.NewPointer(m.st), m.ptr}
 			})
+		case "IsValid":
+			return mk(func(ex *Exec, fr *frame, pos token.Pos, args []value) value { return ex.b.Bool(m.ptr != nil) })
 		}
 	case pmDescT:
 		d := recv.v.(protoDescV)
@@ -274,10 +304,32 @@ func (ex *Exec) protoMethod(recv iface, name string) *modelClosure {
 						return iface{pmFieldT, protoFieldV{st: d.st, idx: i}}
 					}
 				}
-				// members of a oneof are fields of the message too, declared on wrapper types: not modelled
+				// members of a oneof are fields of the message too, declared on the wrapper types <Msg>_<Member>
+				// of the same package: a name that none of them carries is not a field
 				for _, fi := range protoFieldsOf(d.st) {
-					if fi.kind == -1 {
-						panic(ex.unsupported("protoreflect Fields().ByName on a message with a oneof"))
+					if fi.kind != -1 {
+						continue
+					}
+					scope := d.st.Obj().Pkg().Scope()
+					prefix := d.st.Obj().Name() + "_"
+					for _, n := range scope.Names() {
+						if !strings.HasPrefix(n, prefix) {
+							continue
+						}
+						tn, ok := scope.Lookup(n).(*types.TypeName)
+						if !ok {
+							continue
+						}
+						w, ok := tn.Type().(*types.Named)
+						if !ok {
+							continue
+						}
+						if ws, ok := w.Underlying().(*types.Struct); !ok || ws.NumFields() != 1 || !strings.Contains(ws.Tag(0), ",oneof") {
+							continue
+						}
+						if protoFieldsOf(w)[0].name == want {
+							panic(ex.unsupported("protoreflect Fields().ByName naming a oneof member (" + want + ")"))
+						}
 					}
 				}
 				return iface{}
@@ -335,6 +387,20 @@ func (ex *Exec) protoMethod(recv iface, name string) *modelClosure {
 			return mk(func(ex *Exec, fr *frame, pos token.Pos, args []value) value { return ex.b.Bool(fi.list) })
 		case "Name":
 			return mk(func(ex *Exec, fr *frame, pos token.Pos, args []value) value { return ex.strConst(fi.name) })
+		}
+	case pmListT:
+		l := recv.v.(protoListV)
+		switch name {
+		case "Len":
+			return mk(func(ex *Exec, fr *frame, pos token.Pos, args []value) value { return ex.k(int64(len(l.items))) })
+		case "Get":
+			return mk(func(ex *Exec, fr *frame, pos token.Pos, args []value) value {
+				i, ok := args[1].(*smt.Term).ConstInt()
+				if !ok || !i.IsInt64() || i.Int64() < 0 || i.Int64() >= int64(len(l.items)) {
+					panic(ex.unsupported("protoreflect List.Get with a symbolic or out-of-range index"))
+				}
+				return iface{pmValueT, protoValueV{v: l.items[i.Int64()], t: l.elem}}
+			})
 		}
 	case pmValueT:
 		pv := recv.v.(protoValueV)
